@@ -26,7 +26,7 @@ def crc(s):
 def universe(wd):
     r = common.run_tlc("Types.tla", os.path.join(common.SPEC, "Types.cfg"), os.path.join(wd, "tlc"), workers=1, timeout=900)
     common.tlc_must(r, "Types")
-    u = {"triple": [], "slot": {}, "wrapper": [], "bind": [], "name": [], "arity": [], "opval": [], "shadow": [], "prelude": None, "syntax": None}
+    u = {"triple": [], "slot": {}, "wrapper": [], "bind": [], "name": [], "arity": [], "opval": [], "shadow": [], "named": [], "prelude": None, "syntax": None}
     for rec in r.records:
         k = rec.get("kk") or rec["k"]
         if k == "slot":
@@ -35,7 +35,7 @@ def universe(wd):
             u[k] = rec
         else:
             u[k].append(rec)
-    for k in ("triple", "bind", "name", "arity", "opval", "shadow"):
+    for k in ("triple", "bind", "name", "arity", "opval", "shadow", "named"):
         u[k].sort(key=lambda x: json.dumps(x, sort_keys=True))
     u["wrapper"].sort(key=lambda x: x["w"])
     if not u["prelude"] or not u["triple"] or not u["bind"]:
@@ -88,6 +88,13 @@ def statements(u):
             ok.append(st)
         else:
             st.fault = b["verdict"] + "-template-argument"
+            bad.append(st)
+    for b in u["named"]:
+        st = Stmt("", b["pre"], b["ref"], b["post"], "named-bind position=%s class=%s args=%s" % (b["p"], b["c"], b["args"].replace(" ", "")))
+        if b["verdict"] == "ok":
+            ok.append(st)
+        else:
+            st.fault = {"missing": "missing-template-argument", "type": "incompatible-type"}[b["verdict"]]
             bad.append(st)
     for n in u["name"]:
         ok.append(Stmt("", n["pre"], n["ok"], n["post"], "name slot=%s" % n["s"]))
@@ -357,7 +364,8 @@ def tblgen_audit(u, wd, tier, seed, limit=None):
     d = os.path.join(wd, "audit")
     os.makedirs(d, exist_ok=True)
     prelude = [l for l in u["prelude"]["lines"]]
-    usable = lambda st: not any(m in (st.decl + st.pre + st.slot + st.post) for m in TBLGEN14_MISSING)
+    # (named template arguments came with LLVM 17)
+    usable = lambda st: not st.kind.startswith("named-bind") and not any(m in (st.decl + st.pre + st.slot + st.post) for m in TBLGEN14_MISSING)
     none = {"pre": "", "post": ""}
     res = {"available": True, "accepted_ok": 0, "rejected_ok": [], "rejected_bad": 0, "accepted_bad": [], "left_out": 0}
     rng = random.Random(seed)
